@@ -298,6 +298,46 @@ Encode(m) ==
 DirOf(m) == IF m.k \in {"announce", "scrape"} THEN "in" ELSE "out"
 
 ---------------------------------------------------------------------------
+(* where the identifiers of a message are in a JSON text of it, and the   *)
+(* identifiers of the message in the same order.  The statement fixes how *)
+(* an identifier is written (IdEncode), nothing else about the text.      *)
+
+OptNodes(n) == IF n.t \in {"absent", "z"} THEN <<>> ELSE <<n>>
+Member(n, key) == IF n.t = "o" THEN Get(n, key) ELSE Absent
+IdNodes(kind, o) ==
+    CASE kind = "announce" ->
+           <<Get(o, "info_hash"), Get(o, "peer_id")>> \o OptNodes(Get(o, "to_peer_id"))
+           \o OptNodes(Get(o, "offer_id"))
+           \o (LET a == Get(o, "offers")
+               IN IF a.t = "a" THEN [i \in 1..Len(a.v) |-> Member(a.v[i], "offer_id")] ELSE <<>>)
+      [] kind = "scrape" ->
+           LET h == Get(o, "info_hash") IN IF h.t = "a" THEN h.v ELSE OptNodes(h)
+      [] kind \in {"offer", "answer"} -> <<Get(o, "peer_id"), Get(o, "info_hash"), Get(o, "offer_id")>>
+      [] kind = "ann_resp" -> <<Get(o, "info_hash")>>
+      [] kind = "scr_resp" ->
+           LET f == Get(o, "files") IN IF f.t = "m" THEN [i \in 1..Len(f.v) |-> JStr(f.v[i][1])] ELSE <<>>
+      [] kind = "error" -> OptNodes(Get(o, "info_hash"))
+IdSeq(m) ==
+    CASE m.k = "announce" ->
+           <<m.ih, m.pid>> \o m.to \o m.aoid
+           \o (IF m.offers = None THEN <<>> ELSE [i \in 1..Len(m.offers[1]) |-> m.offers[1][i].oid])
+      [] m.k = "scrape" -> IF m.ihs = None THEN <<>> ELSE m.ihs[1].hs
+      [] m.k \in {"offer", "answer"} -> <<m.pid, m.ih, m.oid>>
+      [] m.k = "ann_resp" -> <<m.ih>>
+      [] m.k = "scr_resp" -> [i \in 1..Len(m.files) |-> m.files[i].ih]
+      [] m.k = "error" -> m.eih
+(* every identifier of m is written in o as its 20 code points <= U+00FF *)
+IdsWritten(m, o) ==
+    LET ns == IdNodes(m.k, o)
+        bs == IdSeq(m)
+    IN /\ o.t = "o"
+       /\ Len(ns) = Len(bs)
+       /\ \A i \in 1..Len(ns) : ns[i].t = "s" /\ Len(ns[i].v) = 20 /\ \A j \in 1..20 : ns[i].v[j] <= 255
+       /\ IF m.k = "scr_resp"     \* a table: order is free
+          THEN {ns[i].v : i \in 1..Len(ns)} = {IdEncode(bs[i]) : i \in 1..Len(bs)}
+          ELSE \A i \in 1..Len(ns) : ns[i].v = IdEncode(bs[i])
+
+---------------------------------------------------------------------------
 (* (iii) leaves: concrete for model checking, placeholders for generation *)
 (* (2000000+n: an identifier, 3000000+n: free text, "#n": a number,        *)
 (* 4000000: one identifier character <= U+00FF)                            *)
